@@ -98,6 +98,31 @@ def body(ck):
         builtin_step_cases(ck, quick)
     except ImportError:
         ck.notes.append("built-in environment step-vs-components cases not available")
+    # environments whose components have effects of their own (a Gymnasium environment behind GymToLeraxEnv: initial() resets the
+    # backing simulator): the Gym-style step must take the transition from the GIVEN state and reset ONLY at an episode end, i.e. it
+    # must reproduce the trajectory of a twin of the adapted environment (float32 subprocess shared with C13)
+    import json as _json
+    import os as _os
+    import subprocess as _sp
+    import sys as _sys
+    from harness.common import VERIF, Violation
+    env_ = dict(_os.environ); env_["VERIF_QUICK"] = "1" if quick else "0"; env_["VERIF_SEED"] = str(ck.seed); env_.pop("JAX_ENABLE_X64", None)
+    p = _sp.run([_sys.executable, "-m", "harness.sub_c13_foreign"], env=env_, capture_output=True, text=True, timeout=1500, cwd=str(VERIF))
+    line = [l for l in p.stdout.splitlines() if l.startswith("RESULT ")]
+    if p.returncode != 0 or not line:
+        ck.violations.append(Violation("impl-violates-property", "C01/step/GymToLeraxEnv/exception", "stepping a Gymnasium environment behind GymToLeraxEnv raised",
+                                       extra={"stderr": p.stderr[-3000:]}))
+    else:
+        r = _json.loads(line[0][7:])
+        n = r["counts"].get("adapter:GymToLeraxEnv", 0)
+        ck.count("gym_adapter_steps", n); ck.evaluations += n
+        if n:
+            ck.case_seen(("gym-adapter-steps",))
+        for v in r["violations"]:
+            if "GymToLeraxEnv" in v["sig"]:
+                ck.violations.append(Violation("impl-violates-property", "C01/step/GymToLeraxEnv",
+                                               "env.step on a Gymnasium environment behind GymToLeraxEnv does not report the transition taken from the given state / "
+                                               "resets at other times than episode ends (trajectory differs from a twin of the adapted environment)", case=v["case"]))
 
 
 if __name__ == "__main__":
